@@ -5,10 +5,16 @@ a seam, then perturb it and diff - is the decision procedure:
 
 * inproc: the same command line (always with --seed) is executed twice
   in-process with different pre-states of the PRNG seam (and different
-  allocator history); every draw made before the tool seeds the generator
-  is therefore different in the two executions.
+  allocator history), at different simulated times and UTC offsets (clock
+  seam), in different simulated working directories holding the same
+  relative input files (file-system seam) and under different environment
+  variables; every draw made before the tool seeds the generator and every
+  look at the clock, the directory or the user is therefore different in
+  the two executions.
 * proc: the same command line is executed in fresh interpreters under
-  different PYTHONHASHSEED values, working directories and environments.
+  different PYTHONHASHSEED values, working directories (with the input
+  files under the same relative names), environments and time zones 26
+  hours apart.
 * lib: seeded library generators are called twice with the same seed=
   and different pre-states.
 """
@@ -37,8 +43,11 @@ LEVEL = "exploration"
 RULE = ("one run = one command line of cnfgen / pbgen / cnfshuffle with a "
         "--seed value (from {0, 1, -1, 42, 2^31, 2^64+1, random}) or one "
         "seeded library call, executed twice (inproc, lib) under different "
-        "pre-states of the PRNG seam, or 2-3 times (proc) in fresh "
-        "interpreters with different PYTHONHASHSEED / cwd / environment; "
+        "pre-states of the PRNG seam, simulated clocks / UTC offsets, "
+        "simulated working directories and environment variables, or 2-3 "
+        "times (proc) in fresh interpreters with different PYTHONHASHSEED "
+        "/ cwd / environment / TZ; command lines may name input files "
+        "(DIMACS, kthlist, gml, dot, matrix) relative to the cwd; "
         "outputs are compared byte for byte. Non-trivial: the command uses "
         "randomness (random family, random graph argument, random charges "
         "or a shuffle / compression step); distinct = distinct (argv, "
@@ -54,14 +63,18 @@ COMPONENTS = {
              "actions; all samplers; header construction; cnfgen.info "
              "(git describe) in fresh interpreters"],
     "stub": ["PRNG seam (SimRandom with different pre-states) for inproc / "
-             "lib; std streams and file system (SimFS) for inproc"],
+             "lib; std streams and file system with a simulated working "
+             "directory (SimFS) for inproc; clock seam (SimClock: time.*, "
+             "datetime.date/datetime) for inproc; os.environ for inproc"],
 }
 MANIFEST = {
     "text": "Differential deterministic simulation: identical (command "
             "line, seed) pairs are executed under perturbed nondeterminism "
-            "sources - PRNG pre-state and allocator history in-process; "
-            "PYTHONHASHSEED, working directory, environment and ASLR in "
-            "fresh interpreters - and the complete outputs (header "
+            "sources - PRNG pre-state, allocator history, simulated wall "
+            "clock and UTC offset, simulated working directory and "
+            "environment variables in-process; PYTHONHASHSEED, working "
+            "directory, environment, time zone and ASLR in fresh "
+            "interpreters - and the complete outputs (header "
             "included) are compared byte for byte; seeded library "
             "generators are compared the same way. Exploration by sampling "
             "over a grammar covering every sub-command, random graph "
@@ -72,7 +85,8 @@ MANIFEST = {
             "runs that end in a command-line error are compared on status "
             "only (note).",
     "technique": "deterministic simulation: perturb every nondeterminism "
-                 "seam (PRNG pre-state, hash seed, addresses, cwd, env) and "
+                 "seam (PRNG pre-state, clock, time zone, hash seed, "
+                 "addresses, cwd, env) and "
                  "diff outputs of identical (argv, seed)",
 }
 CONFIGS = {
@@ -163,6 +177,17 @@ EPOCHS = [0, 86399, 951782399, 10 ** 9, 2 ** 31 - 1, 4102444800,
           1790000000]
 TZS = [-12 * 3600, 0, 14 * 3600, 5 * 3600 + 2700]
 SIMCWDS = ["home/alice", "srv/jobs/42", "home/alice/with blank", "x"]
+# who runs the tool, where, in which language (never COLUMNS / LINES: the
+# width of argparse's help text legitimately follows the terminal)
+ENVS = [{"USER": "alice", "LOGNAME": "alice", "HOME": "/home/alice",
+         "LANG": "en_US.UTF-8", "HOSTNAME": "node1", "TMPDIR": "/tmp"},
+        {"USER": "bob", "LOGNAME": "bob", "HOME": "/srv/bob",
+         "LANG": "C", "LC_ALL": "C", "HOSTNAME": "node2",
+         "TMPDIR": "/var/tmp", "NO_COLOR": "1"},
+        {"USER": "root", "LOGNAME": "root", "HOME": "/root",
+         "LANG": "it_IT.ISO-8859-1", "HOSTNAME": "build-7",
+         "SOURCE_DATE_EPOCH": "0", "PYTHONHASHSEED": "random"},
+        {}]
 
 
 def _gen_process_inputs(rng, case, config):
@@ -173,6 +198,7 @@ def _gen_process_inputs(rng, case, config):
     case["clocks"] = [[rng.choice(EPOCHS + [rng.randrange(2 ** 32)]),
                        rng.choice(TZS)] for _ in range(2)]
     case["simcwds"] = rng.sample(SIMCWDS, 2)
+    case["envs"] = rng.sample(ENVS, 2)
     if config == "proc":
         case["hashseeds"] = [str(rng.choice([0, 1, 4242])),
                              str(rng.randrange(1, 2 ** 32))]
@@ -208,8 +234,14 @@ def _run_inproc(case, pre, garbage, which=0):
             argv = ["-i", "in.cnf"] + argv
     junk = [Graph(1) for _ in range(garbage)]     # move the allocator
     sim = SimRandom(pre, max_draws=1_000_000)
-    o = clirun.run_tool(case["tool"], argv, fs, sim=sim, stdin=stdin,
-                        clock=clock)
+    saved_env = dict(os.environ)
+    os.environ.update((case.get("envs") or [{}, {}])[which])
+    try:
+        o = clirun.run_tool(case["tool"], argv, fs, sim=sim, stdin=stdin,
+                            clock=clock)
+    finally:
+        os.environ.clear()
+        os.environ.update(saved_env)
     del junk
     o.clock_reads = clock.reads if clock else 0
     return o, sim
@@ -228,6 +260,7 @@ def execute(case, ctx):
     if case.get("clocks"):
         ctx.fault("clock_and_timezone_perturbed")
         ctx.fault("simulated_cwd_varied")
+        ctx.fault("environment_variables_varied")
         if o1.clock_reads or o2.clock_reads:
             ctx.probe("the tool read the clock")
     ctx.log("inproc", case["tool"], case["argv"], o1.status, o2.status,
@@ -459,4 +492,4 @@ def evidence_extra(agg):
 
 
 SHRINK_SKIP = {"pre", "seed", "garbage", "hashseeds", "cwds", "tool",
-               "input", "lib", "clocks", "simcwds", "tzs", "files"}
+               "input", "lib", "clocks", "simcwds", "tzs", "files", "envs"}
